@@ -41,7 +41,8 @@ Init == \/ /\ kind = "capture" /\ pat = [data |-> {}, context |-> {}] /\ fid = 1
            /\ cap \in [stack : [1..3 -> BOOLEAN], k : 0..2, g : BOOLEAN, d : BOOLEAN] /\ rhs = 1
         \/ /\ kind = "resolve" /\ fid \in DOMAIN E!Formulas /\ cols = <<>> /\ lhs = {} /\ rhs = 1
               \* (the formulas with two quoted names of one placeholder: every presence pattern of these two names)
-              /\ pat \in (IF E!ReadsR(E!Formulas[fid]) THEN [data : SUBSET E!CollidingNames, context : SUBSET E!CollidingNames] ELSE [data : SUBSET E!Names, context : SUBSET E!Names])
+              /\ pat \in (IF E!ReadsR(E!Formulas[fid]) THEN [data : SUBSET E!CollidingNames, context : SUBSET E!CollidingNames] ELSE IF E!ReadsKw(E!Formulas[fid]) THEN [data : SUBSET E!KwNames(E!Formulas[fid]), context : SUBSET E!KwNames(E!Formulas[fid])]
+                              ELSE [data : SUBSET E!Names, context : SUBSET E!Names])
               /\ cform \in (IF pat.context = {} THEN {"dict"} ELSE {"dict", "lm", "lm-named"}) /\ cap = NoCap
         \/ /\ kind = "dot" /\ pat = [data |-> {}, context |-> {}] /\ fid = 1 /\ cols \in Perms4 /\ lhs \in {{"y"}, {"y", "c2"}, {}, {"c 3"}, {"y", "c 3"}} /\ cform = "dict" /\ cap = NoCap
            /\ rhs \in DOMAIN E!DotRhs
